@@ -130,6 +130,40 @@ example : parseWithEnv (toCmdlineEnv [("HOME".toList, "/root".toList), ("OLD".to
 example : String.ofList (toCmdlineEnv [("OLD".toList, "1".toList)] [("VERIF_A".toList, "two words".toList)] ["prog".toList])
     = "VERIF_A='two words' OLD= prog" := by decide
 
+/-- **C19 (the printed assignments mean the command's environment; partial: distinct names).**  When no variable is
+    listed twice in the command's environment vector, evaluating the printed assignments on top of the parent's
+    environment gives every variable of that vector exactly its value: a pair that is not printed is one the parent
+    already has with that value.  (Beyond the property's statement, which is about the argument list; kept because the
+    printed prefix is only useful if it means this.)  `_partial`: with a name listed twice the statement is false of
+    the unchanged code, see `c19_env_duplicate_counterexample`; and a variable *removed* from the vector is printed as
+    `NAME=`, i.e. empty, not unset -- `sh` has no per-command unset. -/
+theorem c19_env_meaning_partial (cur cmdEnv : List (List Char × List Char))
+    (hnd : ∀ kv ∈ cmdEnv, ∀ kv' ∈ cmdEnv, kv.1 = kv'.1 → kv.2 = kv'.2) (k v : List Char) (hm : (k, v) ∈ cmdEnv) :
+    assignAll (lookupEnv cur) (envSets cur cmdEnv) k = some v := by
+  by_cases hc : lookupEnv cur k = some v
+  · rw [assignAll_notin]
+    · exact hc
+    · intro kv hkv heq
+      simp only [envSets, List.mem_filter, bne_iff_ne, ne_eq] at hkv
+      have hv : kv.2 = v := hnd kv hkv.1 (k, v) hm heq
+      apply hkv.2
+      rw [heq, hv]; exact hc
+  · apply assignAll_mem
+    · simp only [envSets, List.mem_filter, bne_iff_ne, ne_eq]
+      exact ⟨hm, hc⟩
+    · intro kv hkv heq
+      simp only [envSets, List.mem_filter] at hkv
+      exact hnd kv hkv.1 (k, v) hm heq
+
+/-- the excluded case, on the unchanged code (an observation: environment fidelity of the *printed* line; the child
+    itself gets the right value, and the argument list is unaffected): `.env("A", "new").env("A", <parent's value>)`
+    prints only `A=new` -- the second pair equals the parent's value and is skipped -- while the command's environment
+    (last setting wins) has the parent's value. -/
+theorem c19_env_duplicate_counterexample :
+    assignAll (lookupEnv [("A".toList, "cur".toList)])
+      (envSets [("A".toList, "cur".toList)] [("A".toList, "new".toList), ("A".toList, "cur".toList)]) "A".toList
+      = some "new".toList := by decide
+
 /-- why the hypothesis on names is there (observation, outside the property's quantifier, which ranges over
     argument vectors): a variable whose name is not a shell name cannot be assigned by `sh` at all; printed
     bare (`a.b=1`) it becomes the command. -/
